@@ -597,6 +597,390 @@ def check_basis(ctx, hz):
                     break
 
 
+
+# =============================================================================================
+# Part D: the other public entry points called directly, and every spelling of the API
+
+def compare_vec(z, ref, mag, amb, cut, npts):
+    """None if the observed vector matches the reference, else (clause, detail)."""
+    if isinstance(z, str):
+        return ('raises', z)
+    z = np.asarray(z, dtype=float)
+    if z.shape != (npts,):
+        return ('field-length', 'returned shape %r for %d points' % (z.shape, npts))
+    refd = np.asarray(ref, dtype=float)
+    skip = amb & bool(cut)
+    err = np.abs(z - refd); err[skip] = 0.0
+    if (np.isnan(z) & ~skip).any():
+        j = int(np.nonzero(np.isnan(z) & ~skip)[0][0])
+        return ('value', 'NaN at point %d (definition gives %.12g)' % (j, refd[j]))
+    if (err > TOL * max(1.0, mag)).any():
+        j = int(np.argmax(err))
+        return ('value', '%.12g at point %d, definition gives %.12g' % (z[j], j, refd[j]))
+    return None
+
+
+def radial_reference(n, m, r0):
+    """R_n^|m|(r) in 80-bit arithmetic from the factorial definition; r0 = radii as floats"""
+    rho = np.array(r0, dtype=LD)
+    R = np.zeros(len(rho), dtype=LD)
+    for e, c in def_coeffs(n, abs(m)):
+        R = R + LD(c) * rho ** e
+    return R
+
+
+def azim_reference(m, angs):
+    th = np.array([np.arctan2(LD(s) / LD(d), LD(c) / LD(d)) for c, s, d in angs], dtype=LD)
+    if m > 0:
+        return np.sqrt(LD(2)) * np.cos(m * th)
+    if m < 0:
+        return np.sqrt(LD(2)) * np.sin(-m * th)
+    return np.ones(len(th), dtype=LD)
+
+
+def gen_direct_case(rng):
+    npts = int(rng.integers(3, 9))
+    rs = sorted(set([0.0, 1.0] + [float(rng.integers(0, 321)) / 256.0 for _ in range(npts)]))
+    case = {'what': 'direct', 'r': rs, 'ang': [list(gen_angle(rng)) for _ in rs],
+            'container': ['ndarray', 'field', 'coords', 'separated'][int(rng.integers(0, 4))],
+            'cache': bool(rng.random() < 0.5)}
+    reqs = []
+    for _ in range(int(rng.integers(3, 8))):
+        u = rng.random()
+        if u < 0.35:                      # low azimuthal orders, where r**m degenerates (m = 0, 1, 2)
+            m = int(rng.integers(0, 3)); n = m + 2 * int(rng.integers(0, (NMAX - m) // 2 + 1))
+        else:
+            n = int(rng.integers(0, NMAX + 1)); m = n % 2 + 2 * int(rng.integers(0, n // 2 + 1))
+        reqs.append([n, -m if rng.random() < 0.5 else m])
+    if rng.random() < 0.5:
+        reqs += [list(q) for q in reqs[:2]]
+    case['reqs'] = reqs
+    return case
+
+
+DIRECTED_DIRECT = [
+    {'what': 'direct', 'r': [0.0, 0.25, 0.5, 0.75, 1.0], 'ang': [[1, 0, 1], [3, 4, 5], [-5, 12, 13], [0, -1, 1], [-15, -8, 17]],
+     'container': c, 'cache': k, 'reqs': [[1, 1], [3, 1], [3, -1], [5, 1], [2, 0], [4, 0], [2, 2], [4, 2], [3, 3], [7, -1], [3, 1], [0, 0], [1, -1]]}
+    for c in ('ndarray', 'field', 'coords', 'separated') for k in (False, True)]
+
+
+def direct_containers(case):
+    """caller-owned objects handed to zernike_radial / zernike_azimuthal: returns (r_obj, th_obj, watched)
+    where watched = list of (name, array-like) that must be bit-identical afterwards"""
+    import hcipy
+    r = np.array(case['r'], dtype=float)
+    th = np.array([math.atan2(s, c) for c, s, d in case['ang']])
+    k = case['container']
+    if k == 'ndarray':
+        return r, th, [('r', r), ('theta', th)]
+    if k == 'separated':
+        g = hcipy.PolarGrid(hcipy.SeparatedCoords((r, th)))
+        R, T = g.separated_coords
+        return R, T, [('grid.separated_coords[0]', R), ('grid.separated_coords[1]', T)]
+    g = hcipy.PolarGrid(hcipy.UnstructuredCoords([r, th]))
+    if k == 'field':
+        return g.r, g.theta, [('grid.r', g.coords[0]), ('grid.theta', g.coords[1])]
+    return g.coords[0], g.coords[1], [('grid.coords[0]', g.coords[0]), ('grid.coords[1]', g.coords[1])]
+
+
+def run_direct(hz, case):
+    """Returns (bad, rad_obs, azi_obs): clauses failing on the real code, and the observed vectors."""
+    robj, tobj, watched = direct_containers(case)
+    before = [np.asarray(a).tobytes() for _, a in watched]
+    r0 = list(case['r']); npts = len(r0)
+    none = np.zeros(npts, dtype=bool)
+    bad, rad_obs, azi_obs = [], [], []
+
+    def mutated(fn, n, m):
+        for (name, a), b in zip(watched, before):
+            if np.asarray(a).tobytes() != b:
+                return ('input-mutated ' + fn, '%s(%d,%d,…) changed the caller\'s %s' % (fn, n, m, name) if fn == 'zernike_radial'
+                        else '%s(%d,…) changed the caller\'s %s' % (fn, m, name))
+        return None
+
+    for rnd in (0, 1):
+        cache_r = {} if case['cache'] else None
+        cache_a = {} if case['cache'] else None
+        for qi, (n, m) in enumerate(case['reqs']):
+            with warnings.catch_warnings():
+                warnings.simplefilter('ignore')
+                try:
+                    v = np.array(hz.zernike_radial(n, m, robj, cache_r), dtype=float).copy()
+                except Exception as e:      # noqa
+                    v = 'raises-' + type(e).__name__
+                try:
+                    a = hz.zernike_azimuthal(m, tobj, cache_a)
+                    a = np.array(np.broadcast_to(np.asarray(a, dtype=float), (npts,))).copy()
+                except Exception as e:      # noqa
+                    a = 'raises-' + type(e).__name__
+            ref = radial_reference(n, m, r0)
+            c = compare_vec(v, ref, float(np.max(np.abs(ref))), none, False, npts)
+            if c:
+                bad.append(('direct zernike_radial ' + c[0] + (' repeat' if rnd else ''),
+                            'zernike_radial(%d,%d,r%s)%s: %s' % (n, m, ',cache' if case['cache'] else '', ' on the second pass over the same array' if rnd else '', c[1]), qi))
+            refa = azim_reference(m, [tuple(x) for x in case['ang']])
+            c = compare_vec(a, refa, 2.0, none, False, npts)
+            if c:
+                bad.append(('direct zernike_azimuthal ' + c[0] + (' repeat' if rnd else ''),
+                            'zernike_azimuthal(%d,theta)%s: %s' % (m, ' on the second pass' if rnd else '', c[1]), qi))
+            for fn in ('zernike_radial',):
+                mu = mutated(fn, n, m)
+                if mu and not any(b[0] == mu[0] for b in bad):
+                    bad.append((mu[0], mu[1], qi))
+            if rnd == 0:
+                rad_obs.append(v); azi_obs.append(a)
+    return bad, rad_obs, azi_obs
+
+
+def check_direct(ctx, hz):
+    cases = list(DIRECTED_DIRECT) + [gen_direct_case(ctx.rng) for _ in range(ctx.scale(150, 3000))]
+    lines, slots = [], []
+    for case in cases:
+        bad, rad_obs, azi_obs = run_direct(hz, case)
+        seen = set()
+        for key, what, qi in bad:
+            if key not in seen:
+                seen.add(key)
+                small = dict(case, reqs=case['reqs'][:qi + 1])
+                for cand in (dict(case, reqs=[case['reqs'][qi]]), dict(case, reqs=[case['reqs'][qi], case['reqs'][qi]])):
+                    if any(k == key for k, _, _ in run_direct(hz, cand)[0]):
+                        small = cand; break
+                ctx.violation(key, what + ' (%s, %d points)' % (case['container'], len(case['r'])), small)
+        ctx.count('direct:' + case['container']); ctx.count('direct-calls', 4 * len(case['reqs']))
+        npts = len(case['r'])
+        ones = [1] * npts
+        lines.append('C13 pts polar %s %s %s' % (rat_list(case['r']), rat_list(ones), rat_list([0] * npts)))
+        for (n, m), v in zip(case['reqs'], rad_obs):
+            ctx.case(None, ('direct-radial', case['container'], n, abs(m), case['cache']))
+            slots.append((len(lines), 'zernike_radial', case, n, m, v, 1.0))
+            lines.append('C13 mode %d %d 2 0' % (n, abs(m)))
+        lines.append('C13 pts polar %s %s %s' % (rat_list(ones), rat_list([Fraction(c, d) for c, s, d in case['ang']]),
+                                                 rat_list([Fraction(s, d) for c, s, d in case['ang']])))
+        for (n, m), a in zip(case['reqs'], azi_obs):
+            ctx.case(None, ('direct-azim', case['container'], m, case['cache']))
+            slots.append((len(lines), 'zernike_azimuthal', case, abs(m), m, a, 1.0 if m == 0 else math.sqrt(2.0)))
+            lines.append('C13 mode %d %d 2 0' % (abs(m), m))
+    out = ctx.model(lines)
+    for idx, fn, case, n, m, v, factor in slots:
+        if not out[idx].startswith('ok '):
+            raise MachineryError('model answered %r to %r' % (out[idx][:60], lines[idx]))
+        mv = np.array([factor * float(LD(q.numerator) / LD(q.denominator)) for q in parse_rat_list(out[idx][3:])])
+        ctx.traces_validated += 1
+        if isinstance(v, str) or v.shape != mv.shape or np.isnan(v).any() or (np.abs(v - mv) > TOL * max(1.0, float(np.max(np.abs(mv))))).any():
+            ctx.disagree('C13 ' + fn, {'case': {k: case[k] for k in ('r', 'ang', 'container', 'cache')}, 'n': n, 'm': m,
+                                      'impl': v if isinstance(v, str) else [repr(x) for x in v[:6]], 'model': [repr(x) for x in mv[:6]]})
+
+
+# ---- spellings
+
+def grid_only(rng, big=False):
+    c = gen_case(rng, big)
+    c.pop('reqs'); c.pop('cache')
+    return c
+
+
+def gen_spelling_case(rng):
+    entry = ['zernike', 'zernike_noll', 'zernike_ansi', 'make_zernike_basis'][int(rng.integers(0, 4))]
+    ga = grid_only(rng); gb = grid_only(rng)
+    D = ga.pop('D'); gb.pop('D')
+    case = {'what': 'spelling', 'entry': entry, 'gridA': ga, 'gridB': gb, 'D': D,
+            'Dform': ['float', 'int', 'array0', 'float64'][int(rng.integers(0, 4))],
+            'generator': bool(rng.random() < 0.5), 'keywords': bool(rng.random() < 0.5),
+            'cutoff': None if rng.random() < 0.25 else bool(rng.random() < 0.5)}
+    if case['Dform'] == 'int' and D != int(D):
+        case['D'] = float(max(1, round(D)))          # an integer diameter, passed as a Python int
+    if entry == 'zernike':
+        n = int(rng.integers(0, NMAX + 1)); m = -n + 2 * int(rng.integers(0, n + 1))
+        case['n'], case['m'] = n, m
+    elif entry == 'zernike_noll':
+        case['i'] = int(rng.integers(1, 232))
+    elif entry == 'zernike_ansi':
+        case['i'] = int(rng.integers(0, 231))
+    else:
+        ansi = bool(rng.random() < 0.5)
+        num = int(rng.integers(1, 9))
+        lo = 0 if ansi else 1
+        start = None if rng.random() < 0.3 else int(rng.integers(lo, lo + 231 - num))
+        case.update({'ansi': ansi, 'num': num, 'start': start,
+                     'use_cache': None if rng.random() < 0.3 else bool(rng.random() < 0.5),
+                     'order': [int(x) for x in rng.permutation(2 * num)]})
+        if ansi and start is None:
+            case['start'] = 1 if rng.random() < 0.5 else 0      # the default starting_mode=1 is also legal for ANSI
+    return case
+
+
+DIRECTED_SPELLINGS = [
+    {'what': 'spelling', 'entry': 'make_zernike_basis', 'gridA': {'kind': 'cart-regular', 'dims': [4, 4], 'delta': 0.25},
+     'gridB': {'kind': 'cart-regular', 'dims': [5, 3], 'delta': 0.25}, 'D': 1.0, 'Dform': df, 'generator': True, 'keywords': kw,
+     'cutoff': cut, 'ansi': ansi, 'num': 6, 'start': st, 'use_cache': uc, 'order': [3, 0, 7, 10, 5, 1, 2, 11, 4, 6, 8, 9]}
+    for df, kw, cut, ansi, st, uc in [('float', False, None, False, None, None), ('int', True, False, True, 3, True),
+                                      ('array0', True, True, False, 4, False), ('float', False, True, True, 0, None)]
+] + [
+    {'what': 'spelling', 'entry': 'make_zernike_basis', 'gridA': {'kind': 'polar-separated', 'R': [0.0, 0.25, 0.5, 0.75], 'ang': [[1, 0, 1], [3, 4, 5], [0, 1, 1]]},
+     'gridB': {'kind': 'polar-points', 'r': [0.0, 0.5, 0.25, 1.0], 'ang': [[1, 0, 1], [3, 4, 5], [0, 1, 1], [-4, 3, 5]]}, 'D': 1.0, 'Dform': 'float',
+     'generator': True, 'keywords': False, 'cutoff': None, 'ansi': False, 'num': 5, 'start': 2, 'use_cache': None, 'order': [9, 8, 7, 6, 5, 4, 3, 2, 1, 0]},
+]
+
+
+def spelling_D(case):
+    D = case['D']
+    return {'float': float(D), 'int': int(D), 'array0': np.array(float(D)), 'float64': np.float64(D)}[case['Dform']]
+
+
+def run_spelling(hz, case):
+    """Returns (bad, outputs): outputs = list of (label, gridkey, n, m, cut, observed vector)"""
+    en, em = expected_noll(NMAX); an, am = expected_ansi(NMAX)
+    grids = {}
+    for key in ('gridA', 'gridB'):
+        g, pts = build(dict(case[key], D=case['D']))
+        grids[key] = (g, pts, [np.asarray(c).tobytes() for c in g.coords])
+    D = spelling_D(case)
+    cut = True if case['cutoff'] is None else case['cutoff']
+    kwcut = {} if case['cutoff'] is None else {'radial_cutoff': case['cutoff']}
+    entry = case['entry']
+    outs = []
+
+    def ev(label, f, gridkey, n, m):
+        with warnings.catch_warnings():
+            warnings.simplefilter('ignore')
+            try:
+                z = np.array(f(), dtype=float).copy()
+            except Exception as e:      # noqa
+                z = 'raises-' + type(e).__name__
+        outs.append((label, gridkey, n, m, cut, z))
+
+    if entry in ('zernike', 'zernike_noll', 'zernike_ansi'):
+        if entry == 'zernike':
+            n, m = case['n'], case['m']; lead = (n, m); f = hz.zernike; tag = 'zernike(%d,%d' % (n, m)
+        elif entry == 'zernike_noll':
+            i = case['i']; n, m = int(en[i - 1]), int(em[i - 1]); lead = (i,); f = hz.zernike_noll; tag = 'zernike_noll(%d' % i
+        else:
+            i = case['i']; n, m = int(an[i]), int(am[i]); lead = (i,); f = hz.zernike_ansi; tag = 'zernike_ansi(%d' % i
+        if case['generator']:
+            if case['keywords']:
+                gen = f(*lead, D=D, **kwcut)
+            else:
+                gen = f(*lead, D, None, *([case['cutoff']] if case['cutoff'] is not None else []))
+            for gk in ('gridA', 'gridB', 'gridA'):
+                ev(tag + ',D) generator evaluated on ' + gk, (lambda gk=gk: gen(grids[gk][0])), gk, n, m)
+        else:
+            for gk in ('gridA', 'gridB'):
+                g = grids[gk][0]
+                if case['keywords']:
+                    ev(tag + ',D=,grid=) on ' + gk, (lambda g=g: f(*lead, grid=g, D=D, **kwcut)), gk, n, m)
+                else:
+                    ev(tag + ',D,grid) on ' + gk, (lambda g=g: f(*lead, D, g, *([case['cutoff']] if case['cutoff'] is not None else []))), gk, n, m)
+    else:
+        ansi, num, start = case['ansi'], case['num'], case['start']
+        s0 = 1 if start is None else start
+        idx = list(range(s0, s0 + num))
+        nm = [(int(an[i]), int(am[i])) if ansi else (int(en[i - 1]), int(em[i - 1])) for i in idx]
+        kw = dict(kwcut)
+        if case['use_cache'] is not None:
+            kw['use_cache'] = case['use_cache']
+        tag = 'make_zernike_basis(%d,D,%s,starting_mode=%r,ansi=%s,cutoff=%r,use_cache=%r)' % (
+            num, 'None' if case['generator'] else 'grid', start, ansi, case['cutoff'], case['use_cache'])
+
+        def make(g):
+            if case['keywords']:
+                k2 = dict(kw, ansi=ansi)
+                if start is not None:
+                    k2['starting_mode'] = start
+                return hz.make_zernike_basis(num_modes=num, D=D, grid=g, **k2)
+            pos = [num, D, g, s0, ansi]
+            return hz.make_zernike_basis(*pos, **kw)
+        if case['generator']:
+            try:
+                with warnings.catch_warnings():
+                    warnings.simplefilter('ignore')
+                    gens = make(None)
+                if len(gens) != num:
+                    outs.append((tag + ' returns %d generators' % len(gens), 'gridA', nm[0][0], nm[0][1], cut, 'raises-WrongCount'))
+                    gens = list(gens) + [gens[-1]] * num
+            except Exception as e:      # noqa
+                outs.append((tag, 'gridA', nm[0][0], nm[0][1], cut, 'raises-' + type(e).__name__))
+                gens = None
+            if gens is not None:
+                for o in case['order']:            # generators evaluated in any order, on either grid
+                    j, gk = o % num, ('gridA', 'gridB')[(o // num) % 2]
+                    ev('%s: generator %d evaluated on %s' % (tag, j, gk), (lambda j=j, gk=gk: gens[j](grids[gk][0])), gk, nm[j][0], nm[j][1])
+        else:
+            for gk in ('gridA', 'gridB'):
+                try:
+                    with warnings.catch_warnings():
+                        warnings.simplefilter('ignore')
+                        basis = make(grids[gk][0])
+                        M = np.array(basis.transformation_matrix, dtype=float)
+                    if M.shape != (grids[gk][0].size, num):
+                        outs.append((tag + ' on ' + gk + ': matrix shape %r' % (M.shape,), gk, nm[0][0], nm[0][1], cut, 'raises-WrongShape'))
+                        continue
+                    for j in range(num):
+                        outs.append(('%s on %s: mode %d' % (tag, gk, j), gk, nm[j][0], nm[j][1], cut, M[:, j].copy()))
+                except Exception as e:      # noqa
+                    outs.append((tag + ' on ' + gk, gk, nm[0][0], nm[0][1], cut, 'raises-' + type(e).__name__))
+    bad = []
+    form = ('generator' if case['generator'] else 'direct')
+    for oi, (label, gk, n, m, c, z) in enumerate(outs):
+        g, pts, _ = grids[gk]
+        outside, amb = cut_info(pts, case['D'])
+        ref, mag = reference(n, m, case['D'], c, pts, outside)
+        r = compare_vec(z, ref, mag, amb, c, len(pts[1]))
+        if r:
+            bad.append(('spelling %s %s %s' % (entry, form, r[0]), '%s (expected mode n=%d, m=%d; D as %s): %s' % (label, n, m, case['Dform'], r[1]), oi))
+    for gk, (g, pts, before) in grids.items():
+        if [np.asarray(c).tobytes() for c in g.coords] != before:
+            bad.append(('input-mutated ' + entry, '%s changed the coordinates of the grid it was evaluated on' % entry, 0))
+    return bad, outs, grids
+
+
+def check_spellings(ctx, hz):
+    cases = list(DIRECTED_SPELLINGS) + [gen_spelling_case(ctx.rng) for _ in range(ctx.scale(300, 5000))]
+    lines, slots, basis_slots = [], [], []
+    for case in cases:
+        bad, outs, grids = run_spelling(hz, case)
+        seen = set()
+        for key, what, oi in bad:
+            if key not in seen:
+                seen.add(key)
+                ctx.violation(key, what, case)
+        ctx.count('spelling:%s:%s' % (case['entry'], 'generator' if case['generator'] else 'direct'))
+        ctx.count('spelling-D:' + case['Dform']); ctx.count('spelling-args:' + ('keyword' if case['keywords'] else 'positional'))
+        ctx.count('spelling-cutoff:%r' % case['cutoff'])
+        if case['entry'] == 'make_zernike_basis':
+            ctx.count('spelling-basis:ansi=%s,start=%s,use_cache=%r' % (case['ansi'], 'default' if case['start'] is None else 'given', case['use_cache']))
+        if case['entry'] == 'make_zernike_basis':
+            en, em = expected_noll(NMAX); an, am = expected_ansi(NMAX)
+            s0 = 1 if case['start'] is None else case['start']
+            want = ','.join('%d:%d' % ((an[i], am[i]) if case['ansi'] else (en[i - 1], em[i - 1])) for i in range(s0, s0 + case['num']))
+            basis_slots.append((len(lines), case, want))
+            lines.append('C13 basis %d %d %d' % (1 if case['ansi'] else 0, s0, case['num']))
+        cur = None
+        for label, gk, n, m, c, z in outs:
+            g, pts, _ = grids[gk]
+            ctx.case(None, ('spelling', case['entry'], case['generator'], case['keywords'], case['Dform'], case['cutoff'], case[gk]['kind'],
+                            case.get('ansi'), case.get('use_cache'), case.get('start') is None, n, m))
+            if cur != gk:
+                lines.append(pts_line(pts)); cur = gk
+            outside, amb = cut_info(pts, case['D'])
+            _, mag = reference(n, m, case['D'], c, pts, outside)
+            slots.append((len(lines), case, label, n, m, c, z, amb, mag))
+            lines.append('C13 mode %d %d %s %d' % (n, m, rat(case['D']), 1 if c else 0))
+    out = ctx.model(lines)
+    for idx, case, want in basis_slots:
+        ctx.traces_validated += 1
+        if out[idx] != 'ok ' + want:
+            ctx.disagree('C13 basis', {'case': case, 'documented': want, 'model': out[idx]})
+    for idx, case, label, n, m, cut, z, amb, mag in slots:
+        if not out[idx].startswith('ok '):
+            raise MachineryError('model answered %r to %r' % (out[idx][:60], lines[idx]))
+        q = parse_rat_list(out[idx][3:])
+        norm2 = (n + 1) * (1 if m == 0 else 2)
+        mv = np.array([float(np.sqrt(LD(norm2)) * (LD(v.numerator) / LD(v.denominator))) for v in q])
+        ctx.traces_validated += 1
+        r = compare_vec(z, mv, mag, amb, cut, len(mv))
+        if r:
+            ctx.disagree('C13 spelling', {'label': label, 'case': case, 'n': n, 'm': m, 'detail': r[1]})
+
 # =============================================================================================
 
 def run(ctx):
@@ -611,6 +995,10 @@ def run(ctx):
                 'arithmetic, cache vs no cache bit for bit, field length; correspondence = exact rational model value times '
                 'sqrt(normSq); tolerance 1e-9*max(1, max over the points of sqrt(2(n+1))|R(2r/D)|). A directed corpus evaluates all 231 modes on every grid kind first. '
                 '(C) make_zernike_basis (Noll/ANSI, cache on/off) on a Gauss-Legendre x uniform polar grid: Gram matrix = identity. '
+                '(D) zernike_radial / zernike_azimuthal called directly on caller-owned arrays, Fields and grid coordinate views (values, inputs '
+                'bit-identical afterwards, second pass identical), and every spelling of zernike / zernike_noll / zernike_ansi / make_zernike_basis '
+                '(grid=None generator forms evaluated later on two different grids in any order, starting_mode, ansi, radial_cutoff, use_cache, '
+                'D as int/float/0-d array/np.float64, positional vs keyword), each against the definition for the mode the documented ordering names and against the model. '
                 'Non-trivial = a mode evaluation on a non-empty grid; distinct by (grid kind, n, m, cutoff, cache, centre present, rim present).')
     ctx.assumptions += ['np.hypot / arctan2 / cos / sin / pow are accurate to a few ulp',
                         'float sqrt in the index maps is tied only on the exhaustively compared range',
@@ -621,7 +1009,11 @@ def run(ctx):
     check_values(ctx, hz)
     ctx.extra['time_values_s'] = round(time.time() - t, 1); t = time.time()
     check_basis(ctx, hz)
-    ctx.extra['time_basis_s'] = round(time.time() - t, 1)
+    ctx.extra['time_basis_s'] = round(time.time() - t, 1); t = time.time()
+    check_direct(ctx, hz)
+    ctx.extra['time_direct_s'] = round(time.time() - t, 1); t = time.time()
+    check_spellings(ctx, hz)
+    ctx.extra['time_spellings_s'] = round(time.time() - t, 1)
 
 
 def replay(ctx, case):
@@ -650,6 +1042,16 @@ def replay(ctx, case):
     elif what == 'noll-injective':
         seen = set(hz.noll_to_zernike(i) for i in range(1, case['N'] + 1))
         ok = len(seen) == case['N']
+    elif what == 'direct':
+        bad = run_direct(hz, case)[0]
+        for key, what_, _ in bad[:5]:
+            print('  fails:', key, '-', what_)
+        ok = not bad
+    elif what == 'spelling':
+        bad = run_spelling(hz, case)[0]
+        for key, what_, _ in bad[:5]:
+            print('  fails:', key, '-', what_)
+        ok = not bad
     elif what == 'basis':
         class Rec:      # minimal stand-in collecting violations
             pass
